@@ -4,9 +4,12 @@ pub mod c01;
 pub mod c02;
 pub mod c03;
 pub mod c05;
+pub mod c08;
 pub mod c11;
 pub mod c12;
 pub mod c13;
+pub mod c14;
+pub mod c20;
 
 pub fn run(ctx: &mut Ctx) -> bool {
     match ctx.id.as_str() {
@@ -14,9 +17,12 @@ pub fn run(ctx: &mut Ctx) -> bool {
         "C02" => c02::run(ctx),
         "C03" => c03::run(ctx),
         "C05" => c05::run(ctx),
+        "C08" => c08::run(ctx),
         "C11" => c11::run(ctx),
         "C12" => c12::run(ctx),
         "C13" => c13::run(ctx),
+        "C14" => c14::run(ctx),
+        "C20" => c20::run(ctx),
         _ => return false,
     }
     true
